@@ -317,7 +317,7 @@ impl Gen {
     if cfg.backend != 0 && r.chance(25) {
       cfg.mm = r.pick(&[1u8, 1, 2, 3, 4, 7]);
     }
-    let tight = cfg.mm & 1 != 0 && r.chance(30);
+    let tight = (cfg.mm & 1 != 0 && r.chance(30)) || (cfg.backend == 2 && r.chance(4));
     let prefix = cfg.prefix();
     let base: u32 = if p == Profile::Buf {
       r.pick(&[64, 96, 128, 200, 256])
@@ -992,6 +992,23 @@ impl Gen {
         }
       }
     }
+    // sometimes through a clone of the arena, and sometimes with the arena filled to the last byte
+    if self.rng.chance(30) {
+      let c = self.next_c;
+      self.next_c += 1;
+      self.emit(format!("clone {c}"));
+      let k = self.rng.pick(&["crc32", "ordsum"]);
+      self.emit(format!("checksum {k}"));
+    }
+    if self.rng.chance(25) {
+      let rem = self.ai().remaining as u64;
+      if rem > 0 {
+        self.alloc_fill(rem);
+      }
+      let k = self.rng.pick(&["crc32", "ordsum"]);
+      self.emit(format!("checksum {k}"));
+      self.emit("slices".to_string());
+    }
     while self.left > 0 && self.case.is_some() {
       match self.rng.weighted(&[70, 6, 7, 7, 5, 5]) {
         0 => self.gen_rd(),
@@ -1026,6 +1043,11 @@ impl Gen {
     let c = [0, 1, d.saturating_sub(1), d, al.saturating_sub(1), al, al + 1, cap.saturating_sub(1), cap, cap + 1,
       2 * cap, 4 * cap, self.rng.range(0, 4 * cap), self.rng.range(al, 2 * cap.max(al))];
     let mut n = self.rng.pick(&c);
+    // back to the capacity the arena was created with (after other truncates)
+    let created = self.cfg.as_ref().map(|c| c.cap as u64).unwrap_or(cap);
+    if created != cap && self.rng.chance(35) {
+      n = created;
+    }
     // with a mapping offset: growth up to and just beyond the offset (file length = offset + capacity)
     let moff = self.cfg.as_ref().map(|c| c.offset).unwrap_or(0);
     if moff > 0 && self.rng.chance(50) {
@@ -1065,6 +1087,10 @@ impl Gen {
   }
 
   fn profile_trunc(&mut self) {
+    // sometimes the very first thing that happens to the (still empty) arena is a truncate
+    if self.rng.chance(15) {
+      self.trunc_once();
+    }
     let total = self.left;
     self.run_mix(total / 3, false);
     let rounds = self.rng.range(1, 4);
@@ -1253,7 +1279,12 @@ impl Gen {
         2 => {
           let h = self.fresh_h();
           let (a, s) = self.pick_ty();
-          self.emit(format!("alloc_t_owned {h} {a} {s}"));
+          // zero-sized types too: the read-only refusal comes before every shortcut
+          match self.rng.below(4) {
+            0 => self.emit(format!("alloc_t {h} 1 0")),
+            1 => self.emit(format!("alloc_z {h}")),
+            _ => self.emit(format!("alloc_t_owned {h} {a} {s}")),
+          };
         }
         3 => {
           let h = self.fresh_h();
@@ -1448,10 +1479,12 @@ impl Gen {
     }
     self.emit("filehash".to_string());
     for mode in ["mut", "copy", "ro", "copy_ro"] {
-      let cap = match self.rng.weighted(&[55, 35, 10]) {
+      let cap = match self.rng.weighted(&[50, 30, 10, 10]) {
         0 => "same".to_string(),
         1 => "none".to_string(),
-        _ => (cap + self.rng.range(1, 4096)).to_string(),
+        2 => (cap + self.rng.range(1, 4096)).to_string(),
+        // an explicit capacity below the file length: a refused open must not cut the file either
+        _ => self.rng.range(prefix.min(cap), cap).to_string(),
       };
       let create = self.rng.chance(15);
       let ok = self.reopen_line(mode, &cap, magic, freelist, create).starts_with("r=ok");
